@@ -88,6 +88,9 @@ func runQuery(dir, name, text string, timeoutMs int) SolveResult {
 			case "sat":
 				st = "sat"
 			}
+			if strings.HasPrefix(first, "(error") {
+				st = "error"
+			}
 			if ctx.Err() != nil && st == "unknown" {
 				st = "cancelled"
 			}
@@ -96,6 +99,7 @@ func runQuery(dir, name, text string, timeoutMs int) SolveResult {
 	}
 	res := SolveResult{Status: "unknown", PerSolv: map[string]string{}}
 	var sat, unsat *one
+	nerr := 0
 	for i := 0; i < len(solvers); i++ {
 		r := <-ch
 		res.PerSolv[r.solver] = fmt.Sprintf("%s (%d ms)", r.status, r.ms)
@@ -108,9 +112,15 @@ func runQuery(dir, name, text string, timeoutMs int) SolveResult {
 			sat = &rr
 			cancel()
 		}
-		if r.status == "unknown" {
+		if r.status == "unknown" || r.status == "error" {
 			res.Raw += "[" + r.solver + "] " + firstLines(r.out, 3) + "\n"
 		}
+		if r.status == "error" {
+			nerr++
+		}
+	}
+	if nerr == len(solvers) {
+		res.Status = "error"
 	}
 	switch {
 	case sat != nil && unsat != nil:
